@@ -28,7 +28,7 @@ def default_helper(w):
     return None
 
 
-def run(ctx, w):
+def _run(ctx, w):
     S = shared.screen(w)
     R = shared.roles(w)
     E = w.E
@@ -554,3 +554,10 @@ def col_bounded(w, S, R, t, gs):
     if t[0] == "phi":
         return all(col_bounded(w, S, R, x, gs) for x in t[1])
     return False
+
+
+def run(ctx, w):
+    _run(ctx, w)
+    # the commands of this property must first of all be DECODED as specified (selector values, parameter slots, finals)
+    from rules import c03
+    shared.embed(ctx, w, c03.dispatch_rules)
